@@ -112,25 +112,31 @@ func usable(enc rs.Encoder, d, p int) string {
 		return "skipped"
 	}
 	ext := enc.(rs.Extensions)
-	size := 64
+	sizes := []int{64}
 	if ext.ShardSizeMultiple() == 1 {
-		size = 10
+		sizes = []int{10}
 	}
-	sh := mkShards(d, p, size, 3)
-	if err := enc.Encode(sh); err != nil {
-		return "encode:" + errClass(err)
+	if total <= 64 {
+		// sizes on both sides of every goroutine-split threshold
+		sizes = append(sizes, 4096+64, 40000*64/64, 1<<17)
 	}
-	if ok, err := enc.Verify(sh); err != nil || !ok {
-		return "verify-failed"
-	}
-	if p > 0 {
-		orig := append([]byte(nil), sh[0]...)
-		sh[0] = nil
-		if err := enc.Reconstruct(sh); err != nil {
-			return "reconstruct:" + errClass(err)
+	for _, size := range sizes {
+		sh := mkShards(d, p, size, 3)
+		if err := enc.Encode(sh); err != nil {
+			return "encode:" + errClass(err)
 		}
-		if !bytes.Equal(sh[0], orig) {
-			return "reconstruct-wrong"
+		if ok, err := enc.Verify(sh); err != nil || !ok {
+			return "verify-failed"
+		}
+		if p > 0 {
+			orig := append([]byte(nil), sh[0]...)
+			sh[0] = nil
+			if err := enc.Reconstruct(sh); err != nil {
+				return "reconstruct:" + errClass(err)
+			}
+			if !bytes.Equal(sh[0], orig) {
+				return "reconstruct-wrong"
+			}
 		}
 	}
 	return "usable"
